@@ -91,7 +91,7 @@ type c13State struct {
 	length  int // successful adds - successful pops (cond queues without Len)
 	closed  bool
 	cons    []*simrt.Task
-	holding int // priq: consumers between a wait-channel receive and the end of their Pop
+	holding int          // priq: consumers between a wait-channel receive and the end of their Pop
 	waiting map[int]bool // priq: consumers inside their wait on WaitCh() (blocked, or woken and about to hold)
 }
 
